@@ -343,10 +343,12 @@ func profileFor(prop, tier string) profile {
 // symbols: a,b = Enqueue with priority 1,2; c = Enqueue with priority 1 and an adjust function;
 // f = finish the oldest running item; g = finish the newest running item; u = make every adjust function return 0;
 // d = Dequeue the newest unstarted item; p = SetPriority(newest unstarted item, 0)
-func (g *world) runWord(W, L int, word string) bool {
+// Returns the length of the longest prefix that denotes a script (len(word) if the whole word does).
+func (g *world) runWord(W, L int, word string) int {
 	s := newSess(W, L)
 	n := 0
 	ok := true
+	good := 0
 	for _, c := range word {
 		switch c {
 		case 'a', 'b', 'c':
@@ -387,15 +389,14 @@ func (g *world) runWord(W, L int, word string) bool {
 		if !ok {
 			break // the word does not denote a new script (its prefix is enumerated anyway)
 		}
+		good++
 	}
-	if ok {
-		s.finishAll(400)
-	}
+	s.finishAll(400)
 	s.close()
 	if ok {
 		g.emit(s, "exhaustive")
 	}
-	return ok
+	return good
 }
 
 func words(alpha string, n int, f func(string)) {
@@ -425,7 +426,7 @@ func corpus() []script {
 	return []script{
 		// F3: full-queue branch appends without sift-up: W=1, L=2, priorities 5,5,9,8,1,7,0 (9 starts before 1)
 		{1, 2, []Stim{enq(5, 0), enq(5, 1), enq(9, 2), enq(8, 3), enq(1, 4), enq(7, 5), enq(0, 6),
-			fin(0), fin(1), fin(3), fin(4), fin(6), fin(5), fin(2)}, "corpus-F3"},
+			fin(0), fin(1)}, "corpus-F3"},
 		// F4: equal priorities must start in arrival order
 		{1, 6, []Stim{enq(1, 0), enq(1, 1), enq(1, 2), enq(1, 3), enq(1, 4), enq(1, 5), enq(1, 6), enq(1, 7)}, "corpus-F4"},
 		// F5: two adjust functions change at once; every waiting adjust function is consulted for every decision
@@ -493,27 +494,35 @@ func main() {
 			g.runFixed(sc)
 		}
 		// 2. exhaustive small scope
-		alpha, n := "abf", 5
+		alpha, n := "abf", 6
 		Ws, Ls := []int{1, 2}, []int{1, 2}
 		switch *prop {
 		case "C05":
-			alpha = "abcfu"
+			alpha, n = "abcfu", 4
 		case "C16":
-			alpha = "abfdp"
+			alpha, n = "abfdp", 5
 		case "C09", "C04":
-			alpha = "abfg"
+			alpha, n = "abfg", 5
 		}
 		if *tier == "thorough" {
-			n = 7
+			n += 2
 			Ls = []int{1, 2, 3}
 		}
 		cnt := 0
 		for _, W := range Ws {
 			for _, L := range Ls {
+				dead := map[string]bool{} // prefixes that do not denote a script (e.g. "finish" with nothing running)
 				for k := 1; k <= n; k++ {
 					words(alpha, k, func(w string) {
-						if g.runWord(W, L, w) {
+						for j := 1; j <= len(w); j++ {
+							if dead[w[:j]] {
+								return
+							}
+						}
+						if good := g.runWord(W, L, w); good == len(w) {
 							cnt++
+						} else {
+							dead[w[:good+1]] = true
 						}
 					})
 				}
